@@ -47,7 +47,19 @@ pub fn schedule(g: &GenCfg, stalls: bool) -> BoxedStrategy<Vec<Seg>> {
         out.append(&mut d);
         out
     });
-    prop_oneof![1 => Just(vec![]), 5 => dense, 3 => sparse, 2 => mid].boxed()
+    let base = prop_oneof![1 => Just(vec![]), 5 => dense, 3 => sparse, 2 => mid];
+    if !stalls {
+        return base.boxed();
+    }
+    // timer-arm stall faults (sched::ARM): the thread that arms the k-th timer of the case is
+    // descheduled right afterwards for longer or shorter than typical time-outs
+    let arm = (prop_oneof![3 => 0u8..4, 2 => 4u8..16, 1 => 16u8..64], prop_oneof![1u8..4, 1u8..40]).prop_map(|(k, ms)| Seg { run: crate::sched::ARM, pick: k, stall_ms: ms });
+    (base, prop_oneof![2 => Just(vec![]).boxed(), 1 => proptest::collection::vec(arm, 1..3).boxed()])
+        .prop_map(|(mut b, a)| {
+            b.extend(a);
+            b
+        })
+        .boxed()
 }
 
 /// durations used by the timed families, in ns: 0, sub-ms, non-integral ms, whole ms, seconds, hours
